@@ -25,6 +25,7 @@ func runC12(c *core.Ctx) {
 	const pkg = "pdf/font/charcode"
 	defer ruleDecodeConsumption(c)
 	defer ruleNoAmbiguousKeys(c)
+	defer ruleNoStaleElementPointers(c)
 	c.Check("C12-R1", pkg+".newTree/desc", "every child stored in the tree is recorded in the descriptor (its own descriptor and its upper bound) before the next child is considered", func(o *core.Ob) {
 		fn := c.Prog.Func(pkg, "newTree")
 		g := fn.Graph()
@@ -580,6 +581,153 @@ func ruleNoAmbiguousKeys(c *core.Ctx) {
 			}
 		}
 		if o.Evals == 0 {
+			o.Count(1)
+		}
+	})
+}
+
+// ruleNoStaleElementPointers (C12-R9): a pointer to an element of a slice
+// (p := &s.nodes[i]) refers to the backing array the slice had at that
+// moment.  If the slice is appended to before p is used again (here through
+// the recursive AppendNodes call), a write through p goes to the old array
+// and is lost: the child link stays 0, which is the "valid leaf" marker, so
+// a prefix of a code is accepted as a complete code.  For every such pointer
+// to an element of a struct field in the package: no call that can append to
+// the same field lies between taking the pointer and a later use of it.
+func ruleNoStaleElementPointers(c *core.Ctx) {
+	const pk = "pdf/font/charcode"
+	c.Check("C12-R9", pk+"/element-pointers", "no pointer to a slice element is used after a call that may append to that slice", func(o *core.Ob) {
+		pkg := c.Prog.Pkg(pk)
+		// which functions append to which slice fields (directly)
+		appends := map[*types.Func]map[*types.Var]bool{}
+		for _, fn := range c.Prog.Funcs(pkg) {
+			info := fn.Info()
+			ast.Inspect(fn.Decl.Body, func(m ast.Node) bool {
+				as, ok := m.(*ast.AssignStmt)
+				if !ok || len(as.Lhs) != len(as.Rhs) {
+					return true
+				}
+				for i, l := range as.Lhs {
+					sel, ok := ast.Unparen(l).(*ast.SelectorExpr)
+					if !ok {
+						continue
+					}
+					f, ok := info.ObjectOf(sel.Sel).(*types.Var)
+					if !ok || !f.IsField() {
+						continue
+					}
+					if call, ok := ast.Unparen(as.Rhs[i]).(*ast.CallExpr); ok {
+						if id, ok := call.Fun.(*ast.Ident); ok && id.Name == "append" {
+							if appends[fn.Obj] == nil {
+								appends[fn.Obj] = map[*types.Var]bool{}
+							}
+							appends[fn.Obj][f] = true
+						}
+					}
+				}
+				return true
+			})
+		}
+		// transitive over static calls in the package
+		for changed := true; changed; {
+			changed = false
+			for _, fn := range c.Prog.Funcs(pkg) {
+				for _, cs := range core.CallsIn(fn.Info(), fn.Decl, true) {
+					if cs.Fn == nil {
+						continue
+					}
+					for f := range appends[cs.Fn.Origin()] {
+						if appends[fn.Obj] == nil {
+							appends[fn.Obj] = map[*types.Var]bool{}
+						}
+						if !appends[fn.Obj][f] {
+							appends[fn.Obj][f] = true
+							changed = true
+						}
+					}
+				}
+			}
+		}
+		nPtr := 0
+		for _, fn := range c.Prog.Funcs(pkg) {
+			info := fn.Info()
+			g := fn.Graph()
+			for _, v := range g.Vs {
+				as, ok := v.AST.(*ast.AssignStmt)
+				if !ok || len(as.Lhs) != 1 || len(as.Rhs) != 1 {
+					continue
+				}
+				ue, ok := ast.Unparen(as.Rhs[0]).(*ast.UnaryExpr)
+				if !ok || ue.Op != token.AND {
+					continue
+				}
+				ix, ok := ast.Unparen(ue.X).(*ast.IndexExpr)
+				if !ok {
+					continue
+				}
+				sel, ok := ast.Unparen(ix.X).(*ast.SelectorExpr)
+				if !ok {
+					continue
+				}
+				field, ok := info.ObjectOf(sel.Sel).(*types.Var)
+				if !ok || !field.IsField() {
+					continue
+				}
+				if _, isSlice := field.Type().Underlying().(*types.Slice); !isSlice {
+					continue
+				}
+				p := core.ObjOf(info, as.Lhs[0])
+				if p == nil {
+					continue
+				}
+				nPtr++
+				o.Count(1)
+				o.At(fn.Site(as, "pointer to an element of "+field.Name()))
+				// calls that may append to the field, reachable from the definition
+				after := g.ReachFrom(v, false, nil)
+				for _, cv := range g.Vs {
+					if cv.AST == nil || !after[cv] {
+						continue
+					}
+					dangerous := false
+					var which string
+					for _, cs := range core.CallsIn(info, cv.AST, false) {
+						if cs.Fn != nil && appends[cs.Fn.Origin()][field] {
+							dangerous = true
+							which = cs.Key
+						}
+					}
+					if as2, ok := cv.AST.(*ast.AssignStmt); ok {
+						for i, l := range as2.Lhs {
+							if s2, ok := ast.Unparen(l).(*ast.SelectorExpr); ok && info.ObjectOf(s2.Sel) == field && i < len(as2.Rhs) {
+								if call, ok := ast.Unparen(as2.Rhs[i]).(*ast.CallExpr); ok {
+									if id, ok := call.Fun.(*ast.Ident); ok && id.Name == "append" {
+										dangerous = true
+										which = "append"
+									}
+								}
+							}
+						}
+					}
+					if !dangerous {
+						continue
+					}
+					// a use of p after that call, before p is redefined
+					later := g.ReachFrom(cv, false, core.AvoidVs(v))
+					for _, uv := range g.Vs {
+						if uv.AST == nil || !later[uv] || uv == v {
+							continue
+						}
+						if core.Mentions(info, uv.AST, p) {
+							o.FailAt(fn.Site(uv.AST, "stale pointer used"), "%s: %s points into %s as it was at %s; %s (at %s) may append to %s and move it to a new array, so this access goes to the old one", c.Prog.Pos(uv.AST.Pos()), p.Name(), field.Name(), c.Prog.Pos(as.Pos()), which, c.Prog.Pos(cv.AST.Pos()), field.Name())
+							break
+						}
+					}
+				}
+			}
+		}
+		o.Fact("%d element pointers inspected", nPtr)
+		if nPtr == 0 {
 			o.Count(1)
 		}
 	})
